@@ -2,10 +2,10 @@
 import interp_common
 from core import rng, run_cases
 
-MODULES = ["Props.C04", "Props.WhenTie", "Props.ControlTie"]
+MODULES = ["Props.C04", "Props.WhenTie", "Props.ControlTie", "Props.ResultsTie"]
 THEOREMS = ["Props.C04.c04_line", "Props.C04.c04_run_monotone", "Props.C04.c04_loop_never_writes", "Props.C04.c04_aggregate", "Props.C04.c04_unexecuted_branch",
             "Props.WhenTie.when_source_is_model", "Props.WhenTie.c04_unexecuted_branch_source", "Props.WhenTie.interp_is_instance",
-            "Props.ControlTie.fail_source_is_model", "Props.ControlTie.c04_fail_source", "Props.ControlTie.interp_fail_is_instance"]
+            "Props.ControlTie.fail_source_is_model", "Props.ControlTie.c04_fail_source", "Props.ControlTie.interp_fail_is_instance", "Props.ResultsTie.c04_aggregate_source"]
 
 
 def run(check, tier):
